@@ -32,11 +32,20 @@ func repoDir() string {
 // OAM DMA, sound triggers, LCDC toggles, interrupts enabled with handlers that return.
 func genROM(seed int64) []byte {
 	rng := rand.New(rand.NewSource(seed))
+	lcdOffForGood := seed%4 == 3 // every fourth generated ROM switches the LCD off early and leaves it off
+	// cartridge kinds: 0 and 3 ROM-only, 1 MBC1 with no RAM declared (the emulator still provides one bank), 2 MBC3+TIMER+RAM
+	variant := int(seed % 4)
 	rom := make([]byte, 0x8000)
 	for _, v := range []int{0x40, 0x48, 0x50, 0x58, 0x60} {
 		rom[v] = 0xd9 // RETI
 	}
 	copy(rom[0x100:], []byte{0x00, 0xc3, 0x50, 0x01})
+	switch variant {
+	case 1:
+		rom[0x147], rom[0x148], rom[0x149] = 0x01, 0x00, 0x00
+	case 2:
+		rom[0x147], rom[0x148], rom[0x149] = 0x10, 0x00, 0x03
+	}
 	var code []byte
 	emit := func(b ...int) {
 		for _, x := range b {
@@ -46,8 +55,11 @@ func genROM(seed int64) []byte {
 	emit(0x31, 0xfe, 0xdf)             // LD SP,DFFE
 	emit(0x3e, 0x05, 0xe0, 0xff)       // IE = VBlank | Timer
 	emit(0x3e, 0x05, 0xe0, 0x07, 0xfb) // TAC = 5, EI
+	if lcdOffForGood {
+		emit(0x3e, 0x11, 0xe0, 0x40)
+	}
 	for len(code) < 0x3000 {
-		switch rng.Intn(14) {
+		switch rng.Intn(16) {
 		case 0:
 			emit(0x3e, rng.Intn(256), 0xe0, 0x04) // DIV
 		case 1:
@@ -61,7 +73,24 @@ func genROM(seed int64) []byte {
 		case 5:
 			emit(0x3e, 0xf0, 0xe0, 0x17, 0x3e, rng.Intn(256), 0xe0, 0x18, 0x3e, 0x80|rng.Intn(8), 0xe0, 0x19) // ch2 trigger
 		case 6:
-			emit(0x3e, []int{0x91, 0x11, 0x91, 0x93}[rng.Intn(4)], 0xe0, 0x40) // LCDC
+			if lcdOffForGood {
+				emit(0x3e, []int{0x11, 0x13, 0x01}[rng.Intn(3)], 0xe0, 0x40)
+			} else {
+				emit(0x3e, []int{0x91, 0x11, 0x91, 0x93}[rng.Intn(4)], 0xe0, 0x40) // LCDC
+			}
+		case 13:
+			emit(0x3e, []int{0x05, 0x01, 0x00, 0x1b, 0xe0, 0x04, 0x1f}[rng.Intn(7)], 0xe0, 0xff) // IE: the timer request must not depend on it
+		case 14:
+			if variant == 1 || variant == 2 {
+				// cartridge RAM: enable, read a cell (before anything was written: whatever a fresh cartridge holds), store it, write it
+				a := 0xa000 + rng.Intn(0x40)
+				d := 0xc000 + rng.Intn(0x1e00)
+				emit(0x3e, 0x0a, 0xea, 0x00, 0x00, 0xfa, a&0xff, a>>8, 0xea, d&0xff, d>>8, 0xe0, 0x01, 0x3e, rng.Intn(256), 0xea, a&0xff, a>>8)
+				if variant == 2 && rng.Intn(2) == 0 {
+					// clock: select a register, latch, read, store; then back to RAM bank 0
+					emit(0x3e, 0x08+rng.Intn(5), 0xea, 0x00, 0x40, 0xaf, 0xea, 0x00, 0x60, 0x3c, 0xea, 0x00, 0x60, 0xfa, 0x00, 0xa0, 0xea, d&0xff, d>>8, 0xaf, 0xea, 0x00, 0x40)
+				}
+			}
 		case 7:
 			emit(0x3e, rng.Intn(256), 0xe0, 0x01) // serial
 		case 8:
@@ -98,7 +127,7 @@ func romList(c *Ctx, tmp string, n int) []string {
 	for i := 0; i < n; i++ {
 		if i%2 == 0 {
 			p := filepath.Join(tmp, fmt.Sprintf("gen-%d.gb", i))
-			os.WriteFile(p, genROM(rng.Int63n(1<<40)), 0o644)
+			os.WriteFile(p, genROM(rng.Int63n(1<<40)&^3|int64(i/2%4)), 0o644)
 			out = append(out, p)
 		} else {
 			p := filepath.Join(base, cands[(i/2)%len(cands)])
@@ -354,7 +383,9 @@ func systemMain(c *Ctx) {
 			n = 40
 		}
 		rng := c.Rand(2602)
-		roms := romList(c, tmp, 4)
+		all := romList(c, tmp, 8)
+		// generated ROMs of all four variants (the fourth keeps the LCD off) and two test ROMs
+		roms := []string{all[0], all[6], all[1], all[2], all[6], all[3], all[4], all[6]}
 		for i := 0; i < n; i++ {
 			mode := []string{"cancel", "close"}[i%2]
 			w.Put(runRun(fmt.Sprintf("system-run-%d", i), roms[i%len(roms)], mode, 1+rng.Intn(12), i%4 < 2))
